@@ -109,9 +109,20 @@ def run_case(tier, seed, index, spec=None):
             for v, idx in s2.items():
                 if v in s1:
                     set_phys(p2, idx, A.get(p1['physical'], s1[v]) if p1['psizes'] else p1['physical'])
-        d_ = rng.choice([math.inf, -math.inf, 0.0])
+        d_ = rng.choice([math.inf, -math.inf, 0.0, math.nan])
         p1['default'] = d_
         p2['default'] = d_ if rng.random() < 0.7 else 0.0
+        if d_ != d_ and p2['default'] != p2['default'] and rng.random() < 0.6:
+            # NaN defaults on both sides, and each side stores NaN exactly where only the other side's default applies:
+            # the dense tensors are equal up to NaN == NaN, which allclose(equal_nan=True) has to accept
+            for v, idx in s1.items():
+                if v not in s2:
+                    set_phys(p1, idx, math.nan)
+            for v, idx in s2.items():
+                if v not in s1:
+                    set_phys(p2, idx, math.nan)
+                else:
+                    set_phys(p2, idx, A.get(p1['physical'], s1[v]) if p1['psizes'] else p1['physical'])
     t = TP.realise(I, p1, dtype)
     u, shared = TP.realise_sharing(I, rng, p2, dtype, t)
     d = torch.tensor(A.densify(p1)[0], dtype=dtype).reshape(A.shape_of(p1))
